@@ -1,11 +1,11 @@
 #!/bin/sh
-# usage: tools/seeded.sh <PROP> [<name>] [-- extra vf args]
+# usage: [WT_PREFIX=w2] tools/seeded.sh <PROP> [<name>] [-- extra vf args]
 # Verify a seeded change produced in the scratch worktree /tmp/wt_<PROP> and run the property's check against it.
 #  1. pinned suite still passes with the change   2. demo fails with / passes without the change
 #  3. ./vf check <PROP> against the changed tree (VERIF_REPO)   4. keep patch.diff, demo, NOTE.md, meta.json in /verif/seeded/<name>/
 prop="$1"; name="${2:-$1}"; shift; [ $# -gt 0 ] && shift
 [ "$1" = "--" ] && shift
-wt="/tmp/wt_$prop"
+wt="/tmp/${WT_PREFIX:-wt}_$prop"
 out="/verif/seeded/$name"
 mkdir -p "$out"
 cd "$wt" || exit 2
